@@ -42,7 +42,8 @@ Theorem C01_frame_assembly_round_trip : forall cfg d p dictID bs rest e' x',
               (N.min (N.min (frame_window p (lenN (blocks_content bs))) BLOCK_MAX) (c_block_max cfg))
               (dict_entropy d) (x_init d) bs = Ok (e', x') ->
   ext (x_init d) x' (blocks_content bs) ->
-  exists t, decode_frame cfg d (enc_frame p dictID bs ++ rest) = Ok (blocks_content bs, t, rest).
+  exists t, decode_frame cfg d (enc_frame p dictID bs ++ rest) = Ok (blocks_content bs, t, rest) /\
+            fh_expected p (lenN (blocks_content bs)) dictID (ft_header t).
 Proof. exact decode_enc_frame. Qed.
 Print Assumptions C01_frame_assembly_round_trip.
 
@@ -246,7 +247,7 @@ Theorem C01_lz_compressor_model_lossless : forall cfg d p dictID pbs ebs z rest,
   pbs <> [] ->
   pblocks_run (c_strict_window cfg) win blockMax (z_init d) pbs = Some (ebs, z) ->
   params_ok p (lenN content) dictID -> c_magicless cfg = fp_magicless p -> win <= c_window_max cfg -> dict_ok d p dictID ->
-  (exists t, decode_frame cfg d (enc_frame p dictID ebs ++ rest) = Ok (content, t, rest)) /\
+  (exists t, decode_frame cfg d (enc_frame p dictID ebs ++ rest) = Ok (content, t, rest) /\ fh_expected p (lenN content) dictID (ft_header t)) /\
   z_hist z = rev content ++ rev' (dict_content d) /\ z_pos z = lenN content.
 Proof. exact lz_model_lossless. Qed.
 Print Assumptions C01_lz_compressor_model_lossless.
